@@ -67,6 +67,13 @@ class Printer(object):
             return None
         w = last_values(words)
         present = set(l for l, _ in words)
+        if code in ("G2", "G3"):
+            # an arc without a usable centre is rejected by the firmware as a whole (nothing moves, nothing extrudes)
+            if "R" in w:
+                if w["R"] == 0:
+                    return code
+            elif not w.get("I") and not w.get("J"):
+                return code
         if code in ("G0", "G1", "G2", "G3"):
             for ax in "XYZ":
                 if ax in w:
